@@ -57,5 +57,18 @@ func init() {
 		seeded("C15", "C15-2", "C15-E2", "child delete absent from the parent"),
 		seeded("C18", "C18-3", "C18-E1", ""),
 		seeded("C20", "C20-2", "C20-M2", "builds a set type"),
+		// round 5
+		seeded("C05", "C05-3", "C05-P3", "appendTypeValue component"),
+		seeded("C07", "C07-3", "C07-F1", ""),
+		seeded("C04", "C07-3", "C04-F1", ""),
+		seeded("C08", "C08-3", "C08-P4", "chooses the partial form"),
+		seeded("C10", "C08-3", "C10-S5", "chooses the partial form"),
+		seeded("C10", "C10-3", "C10-R1", "stamps a new row"),
+		seeded("C11", "C11-3", "C11-O5", "Pull(done)"),
+		seeded("C13", "C13-3", "C13-W1", ""),
+		seeded("C16", "C16-3", "C16-R1", "extends the previous range"),
+		seeded("C17", "C17-3", "C17-O1", ""),
+		seeded("C18", "C18-4", "C18-E3", ""),
+		seeded("C19", "C19-3", "C19-K5", "MergeBranch parameter childBranch"),
 	)
 }
